@@ -1,6 +1,7 @@
 import CifModel.Lemmas.ParseCBSkip
 import CifModel.Lemmas.ParseCBErase
 import CifModel.Lemmas.ParseCBMirror
+import CifModel.Lemmas.ParseCBAllCont
 import CifModel.Spec.Traversal
 /-
   Property C15 — parse-time callbacks mirror the document and steer what is stored.
@@ -30,13 +31,6 @@ open ParseCB Lemmas.ParseCB Spec.Doc
 -- ---- FULL statements (not proved) ---------------------------------------------------------------------------------
 
 def C15_handlerEvents (l : List Ev) : List Ev := l.filter (fun e => match e with | .ws _ => false | _ => true)
-
-/-- with handlers that always continue, the callbacks are those the document owes, in document order, and the stored
-    CIF is the document's denotation (as canonical text) -/
-def C15_all_continue_mirror_full (evEq : List Ev → List Ev → Bool) (cifEq : Cif → Cif → Bool) : Prop :=
-  ∀ d : Doc, evEq (C15_handlerEvents (parseCB (fun _ _ => 0) true (tokensOf d)).1) (docEvents true d) = true
-    ∧ (parseCB (fun _ _ => 0) true (tokensOf d)).2.1 = 0
-    ∧ cifEq (parseCB (fun _ _ => 0) true (tokensOf d)).2.2 (denote d) = true
 
 -- "everything else is stored as in an unfiltered parse", first half: nothing is altered or invented — whatever a filtered
 -- parse stores (block, frame, loop, packet, scalar item) is also stored, with the same value, by the unfiltered parse
@@ -294,6 +288,28 @@ theorem C15_value_mirror (v : V) (rest : List Tok) (s : St) (b : Bool) (fuel : N
     parseValue fuel (atb s (valueToks v ++ rest) b) = (OK, v, atb s rest false) :=
   value_mirror v rest s b fuel hw hf
 
+/-- **All continue — the callbacks mirror the document and the store is its denotation.**  For every well-formed abstract
+    document `d` (`wfDoc`: well-formed values; loops with ≥ 1 name and ≥ 1 packet, every packet as long as the header;
+    save frames only in data blocks, not nested), with handlers that always continue and a target CIF: the parse of the
+    document's token sequence delivers exactly the callbacks `docEvents true d` — cif / block / frame / loop / packet
+    start and end, every item with its name and value, the data-name and keyword callbacks — in document order, returns
+    CIF_OK, and the resulting CIF is `denote d`.  (`fuel`: any amount ≥ `szDoc d + 1`; the model's own `fuelFor` in the
+    corollary below.) -/
+theorem C15_all_continue_mirror (d : Doc) (hw : wfDoc d = true) (fuel : Nat) (hf : szDoc d + 1 ≤ fuel) :
+    (parseCif allContP 1 true fuel (St.init (tokensOf d))).2.1.log.reverse = docEvents true d
+    ∧ (parseCif allContP 1 true fuel (St.init (tokensOf d))).1 = OK
+    ∧ (parseCif allContP 1 true fuel (St.init (tokensOf d))).2.2 = denote d := by
+  obtain ⟨h1, h2, h3⟩ := doc_stage1 allContP allContP_noStop true d fuel hw hf
+  obtain ⟨k1, k2⟩ := kDoc_allCont d hw
+  exact ⟨by rw [h2]; exact k1, h1, by rw [h3]; exact k2⟩
+
+/-- the same for `parseCB` (the model's entry point, fuel `fuelFor`) -/
+theorem C15_all_continue_mirror_parseCB (d : Doc) (hw : wfDoc d = true) (hf : szDoc d + 1 ≤ fuelFor (tokensOf d)) :
+    parseCB allContP true (tokensOf d) = (docEvents true d, OK, denote d) := by
+  obtain ⟨h1, h2, h3⟩ := C15_all_continue_mirror d hw (fuelFor (tokensOf d)) hf
+  unfold parseCB
+  rw [h1, h2, h3]
+
 -- ---- the repaired defect F33, as a statement about the pinned variant ------------------------------------------------
 
 /-- before fix 43d0bb7 a positive answer of handle_loop_start did not skip the loop body: the packets were parsed (with
@@ -345,6 +361,8 @@ example : ((parseCB (fun k _ => if k = 1 then -1 else 0) true (tokensOf C15_demo
 example : (parseCB (fun k _ => if k = 2 then 7 else 0) true (tokensOf C15_demo)).2.1 = 7 := by decide +kernel
 -- the balance hypotheses are satisfiable: entry at depth 0 and at depth 2
 example : Bal 0 1 ∧ Bal 2 2 ∧ ¬ Bal 2 1 := by unfold Bal; omega
+-- the mirror hypotheses hold for the demo document
+example : wfDoc C15_demo = true ∧ szDoc C15_demo + 1 ≤ fuelFor (tokensOf C15_demo) := by decide +kernel
 -- the value-mirror hypotheses on a nested value
 example : wfV (.lst [.unk, .tbl [((a!"k"), (a!"k"), .lst [.na])]]) = true ∧ szV (.lst [.unk, .tbl [((a!"k"), (a!"k"), .lst [.na])]]) = 13 := by decide +kernel
 -- the sub-structure relation on the demo: a filtered parse (block_start answers SKIP_CURRENT; an item answers SKIP_CURRENT)
